@@ -132,18 +132,24 @@ def wellFormed (s : St) : Op → Bool
   | _ => true
 
 /-- op `c09.run` : {env, ops} ↦ per step: projected model state, outcome, `hyp` (all operations so
-    far satisfy `OpOk`), `inv` (the executable specification `Inv` on the model state) -/
+    far satisfy `OpOk` = hypothesis `AllOk` of `C09_inv_history` on this prefix), `hypC` (the prefix
+    satisfies the weaker `AllOkC` of `C09_inv_history_corrected`; `AllOk → AllOkC` is
+    `C09_allOk_corrected`, so it is only evaluated once `hyp` is lost), `inv` (the executable
+    specification `Inv` on the model state) -/
 def runOps (j : Json) : Except String Json := do
   let env ← getEnv j
   let ops ← (← getArr j "ops").mapM getOp
-  let (_, _, out) := ops.foldl (init := (Attrs.init, true, ([] : List Json)))
-    fun (acc : St × Bool × List Json) op =>
-      let (s, hyp, out) := acc
+  let (_, _, _, out) := ops.foldl (init := (Attrs.init, true, 0, ([] : List Json)))
+    fun (acc : St × Bool × Nat × List Json) op =>
+      let (s, hyp, k, out) := acc
       let hyp' := hyp && decide (OpOk s op)
+      let hypC := hyp' || decide (AllOkC env Attrs.init (ops.take (k + 1)))
       let (s', r) := apply env s op
-      (s', hyp', jobj [("state", stateJson env s'), ("res", resJson r), ("hyp", jbool hyp'),
-                      ("opOk", jbool (decide (OpOk s op))), ("wf", jbool (wellFormed s op)),
-                      ("inv", jbool (decide (Inv s')))] :: out)
+      (s', hyp', k + 1,
+       jobj [("state", stateJson env s'), ("res", resJson r), ("hyp", jbool hyp'),
+             ("hypC", jbool hypC),
+             ("opOk", jbool (decide (OpOk s op))), ("wf", jbool (wellFormed s op)),
+             ("inv", jbool (decide (Inv s')))] :: out)
   return jobj [("steps", jarr out.reverse), ("init", stateJson env Attrs.init),
                ("initInv", jbool (decide (Inv Attrs.init)))]
 
